@@ -19,9 +19,10 @@ pub(crate) struct ContainerAttributes {
     pub(crate) try_from:          EqValue,
     pub(crate) into:              EqValue,
 }
-impl syn::parse::Parse for ContainerAttributes {
-    fn parse(input: syn::parse::ParseStream) -> syn::Result<Self> {
-        let mut this = ContainerAttributes::default();
+impl ContainerAttributes {
+    /// collect one more `#[serde(...)]` ( an item can have several of them )
+    pub(crate) fn parse_more(&mut self, input: syn::parse::ParseStream) -> syn::Result<()> {
+        let this = self;
 
         while let Ok(i) = input.parse::<Ident>() {
             match &*i.to_string() {
@@ -44,7 +45,7 @@ impl syn::parse::Parse for ContainerAttributes {
             }
         }
 
-        Ok(this)
+        Ok(())
     }
 }
 
@@ -59,9 +60,10 @@ pub(crate) struct FieldAttributes {
     pub(crate) skip_deserializing:  bool,
     pub(crate) skip_serializing_if: EqValue,
 }
-impl syn::parse::Parse for FieldAttributes {
-    fn parse(input: syn::parse::ParseStream) -> syn::Result<Self> {
-        let mut this = FieldAttributes::default();
+impl FieldAttributes {
+    /// collect one more `#[serde(...)]` ( an item can have several of them )
+    pub(crate) fn parse_more(&mut self, input: syn::parse::ParseStream) -> syn::Result<()> {
+        let this = self;
 
         while let Ok(i) = input.parse::<Ident>() {
             match &*i.to_string() {
@@ -81,7 +83,7 @@ impl syn::parse::Parse for FieldAttributes {
             }
         }
 
-        Ok(this)
+        Ok(())
     }
 }
 
@@ -97,9 +99,10 @@ pub(crate) struct VariantAttributes {
     pub(crate) other:               bool,
     pub(crate) untagged:            bool,
 }
-impl syn::parse::Parse for VariantAttributes {
-    fn parse(input: syn::parse::ParseStream) -> syn::Result<Self> {
-        let mut this = VariantAttributes::default();
+impl VariantAttributes {
+    /// collect one more `#[serde(...)]` ( an item can have several of them )
+    pub(crate) fn parse_more(&mut self, input: syn::parse::ParseStream) -> syn::Result<()> {
+        let this = self;
 
         while let Ok(i) = input.parse::<Ident>() {
             match &*i.to_string() {
@@ -120,7 +123,7 @@ impl syn::parse::Parse for VariantAttributes {
             }
         }
 
-        Ok(this)
+        Ok(())
     }
 }
 
